@@ -107,3 +107,34 @@ def splitFirstDot : Str → Str × Option Str
     else let (a, b) := splitFirstDot cs; (c :: a, b)
 
 end ConfigKeys
+
+/-! Generic string helpers the translation of `_splitIntoKeys` (`Gen/ConfigPy.lean`) is expressed with. -/
+namespace ConfigKeys
+
+def head (s : Str) : Char := s.headD ' '
+
+/-- `p in s` for strings -/
+def isInfixB (p : Str) : Str → Bool
+  | [] => p.isEmpty
+  | c :: cs => p.isPrefixOf (c :: cs) || isInfixB p cs
+
+/-- `s.replace(p, r)`: non-overlapping occurrences, left to right (`p` non-empty; an empty pattern leaves `s` as it is) -/
+def replaceSub (p r : Str) (s : Str) : Str :=
+  if hp : p.isEmpty then s else
+  match s with
+  | [] => []
+  | c :: cs =>
+    if p.isPrefixOf (c :: cs) then r ++ replaceSub p r ((c :: cs).drop p.length)
+    else c :: replaceSub p r cs
+termination_by s.length
+decreasing_by
+  · have : 0 < p.length := by
+      cases p with
+      | nil => simp at hp
+      | cons _ _ => simp
+    simp only [List.length_drop, List.length_cons]; omega
+  · simp
+
+def replaceChar (a b : Char) (s : Str) : Str := s.map fun c => if c == a then b else c
+
+end ConfigKeys
